@@ -35,18 +35,30 @@ InsertAt(s, i, x) == SubSeq(s, 1, i - 1) \o <<x>> \o SubSeq(s, i, Len(s))   \* x
 NoDup(s) == \A i, j \in DOMAIN s : i # j => s[i] # s[j]
 
 \* ---------------------------------------------------------------------------------------------
-\* derived structure
+\* derived structure.  Everything is computed from the child / attribute lists; the `...Fn` forms build the
+\* whole parent (owner) function of a state once, so that callers that look at many nodes or many calls of one
+\* state do not pay for it again (TLC evaluates a LET-bound value once).
 
-ParentsOf(P, S, n) == { p \in Nodes(P) : n \in Range(S.kids[p]) }
-Parent(P, S, n) == IF ParentsOf(P, S, n) = {} THEN None ELSE CHOOSE p \in ParentsOf(P, S, n) : TRUE
+NN(P) == Len(P.kind)                                            \* Nodes(P) = 1..NN(P)
 
-OwnerElems(P, S, a) == { e \in Nodes(P) : a \in Range(S.attrs[e]) }
-OwnerElem(P, S, a) == IF OwnerElems(P, S, a) = {} THEN None ELSE CHOOSE e \in OwnerElems(P, S, a) : TRUE
+ChildPairs(P, S) == UNION { { <<S.kids[p][i], p>> : i \in DOMAIN S.kids[p] } : p \in Nodes(P) }
+AttrPairs(P, S)  == UNION { { <<S.attrs[p][i], p>> : i \in DOMAIN S.attrs[p] } : p \in Nodes(P) }
 
-RECURSIVE AncestorsOf(_, _, _)
-AncestorsOf(P, S, n) ==
-  LET p == Parent(P, S, n)
-  IN  IF p = None THEN {} ELSE {p} \cup AncestorsOf(P, S, p)
+PairFn(P, pairs) ==
+  [n \in Nodes(P) |-> LET ps == { pr \in pairs : pr[1] = n }
+                       IN  IF ps = {} THEN None ELSE (CHOOSE pr \in ps : TRUE)[2]]
+ParentFn(P, S) == PairFn(P, ChildPairs(P, S))                  \* node -> parent or None
+OwnerFn(P, S)  == PairFn(P, AttrPairs(P, S))                   \* attribute -> owner element or None
+
+Parent(P, S, n)    == ParentFn(P, S)[n]
+OwnerElem(P, S, a) == OwnerFn(P, S)[a]
+
+\* ancestors along a parent function; `fuel` makes it total on cyclic garbage logged by an implementation
+RECURSIVE AncVia(_, _, _)
+AncVia(par, n, fuel) ==
+  IF fuel = 0 \/ par[n] = None THEN {} ELSE {par[n]} \cup AncVia(par, par[n], fuel - 1)
+
+AncestorsOf(P, S, n) == AncVia(ParentFn(P, S), n, NN(P))
 
 \* the document a node belongs to for the WRONG_DOCUMENT rule (a document is its own)
 DocOf(P, n) == IF P.kind[n] = "doc" THEN n ELSE P.owner[n]
@@ -61,22 +73,29 @@ IsContainer(P, n) == P.kind[n] \in {"doc", "elem", "attr"}
 
 KidsOfKind(P, S, r, k) == { c \in Range(S.kids[r]) : P.kind[c] = k }
 
+TotalLen(P, f) ==                                              \* sum of the lengths of the lists f[1..N]
+  LET F[k \in 0..NN(P)] == IF k = 0 THEN 0 ELSE F[k - 1] + Len(f[k]) IN F[NN(P)]
+
 \* ---------------------------------------------------------------------------------------------
 \* C12: the tree invariant of the ideal machine
 
-TreeInv(P, S) ==
-  /\ \A p \in Nodes(P) : NoDup(S.kids[p]) /\ NoDup(S.attrs[p])
-  /\ \A n \in Nodes(P) : Cardinality(ParentsOf(P, S, n)) <= 1
-  /\ \A n \in Nodes(P) : Cardinality(OwnerElems(P, S, n)) <= 1
-  /\ \A n \in Nodes(P) : n \notin AncestorsOf(P, S, n)
-  /\ \A p \in Nodes(P) : \A c \in Range(S.kids[p]) : CanContain(P.kind[p], P.kind[c])
-  /\ \A p \in Nodes(P) : \A c \in Range(S.kids[p]) : DocOf(P, c) = DocOf(P, p)
-  /\ \A e \in Nodes(P) : \A a \in Range(S.attrs[e]) :
-        P.kind[e] = "elem" /\ P.kind[a] = "attr" /\ DocOf(P, a) = DocOf(P, e)
-  /\ \A e \in Nodes(P) : \A a, b \in Range(S.attrs[e]) : a # b => P.aname[a] # P.aname[b]
+TreeInvX(P, S, cp, ap, par) ==
+  \* no node occurs twice in one list or in two lists
+  /\ Cardinality({ pr[1] : pr \in cp }) = TotalLen(P, S.kids)
+  /\ Cardinality({ pr[1] : pr \in ap }) = TotalLen(P, S.attrs)
+  \* nor beneath itself
+  /\ \A n \in Nodes(P) : n \notin AncVia(par, n, NN(P))
+  /\ \A pr \in cp : CanContain(P.kind[pr[2]], P.kind[pr[1]]) /\ DocOf(P, pr[1]) = DocOf(P, pr[2])
+  /\ \A pr \in ap : P.kind[pr[2]] = "elem" /\ P.kind[pr[1]] = "attr" /\ DocOf(P, pr[1]) = DocOf(P, pr[2])
+  /\ \A e \in Nodes(P) : Cardinality({ P.aname[a] : a \in Range(S.attrs[e]) }) = Len(S.attrs[e])
   /\ \A d \in Nodes(P) : P.kind[d] = "doc" =>
         /\ Cardinality(KidsOfKind(P, S, d, "elem")) <= 1
         /\ Cardinality(KidsOfKind(P, S, d, "doctype")) <= 1
+
+TreeInv(P, S) ==
+  LET cp == ChildPairs(P, S)
+      ap == AttrPairs(P, S)
+  IN  TreeInvX(P, S, cp, ap, PairFn(P, cp))
 
 \* ---------------------------------------------------------------------------------------------
 \* C14: document order = pre-order, an element before its attributes before its children
@@ -104,12 +123,12 @@ INUSE == "InuseAttributeErr"
 \* errors of putting n under r (before ref, or at the end when ref = None); `moving` is the node that
 \* leaves r in the same call (replace_child: old) and therefore does not count as a second
 \* element / doctype of a document
-InsertErrs(P, S, r, n, ref, leaving) ==
+InsertErrs(P, S, par, r, n, ref, leaving) ==
   (IF DocOf(P, n) # DocOf(P, r) THEN {WRONGDOC} ELSE {})
   \cup (IF ref # None /\ DocOf(P, ref) # DocOf(P, r) THEN {WRONGDOC, NOTFOUND} ELSE {})
   \cup (IF \/ ~CanContain(P.kind[r], P.kind[n])
            \/ n = r
-           \/ n \in AncestorsOf(P, S, r)
+           \/ n \in AncVia(par, r, NN(P))
            \/ /\ P.kind[r] = "doc" /\ P.kind[n] \in {"elem", "doctype"}
               /\ KidsOfKind(P, S, r, P.kind[n]) \ {n, leaving} # {}
         THEN {HIER} ELSE {})
@@ -117,18 +136,25 @@ InsertErrs(P, S, r, n, ref, leaving) ==
 
 \* moving the document's own element / doctype to another position, or replacing the document element
 \* by another element: DOM L1 can be read either way (the crate answers HIERARCHY_REQUEST)
+\* Likewise (re-)inserting a DocumentType node: DOM Level 1 has no way to create one and calls it read-only,
+\* so an implementation may refuse to insert it anywhere (HIERARCHY_REQUEST) - or put it back.
 DocSingletonAmbiguous(P, S, r, n, leaving) ==
   /\ P.kind[r] = "doc" /\ P.kind[n] \in {"elem", "doctype"}
-  /\ KidsOfKind(P, S, r, P.kind[n]) # {}
-  /\ KidsOfKind(P, S, r, P.kind[n]) \ {n, leaving} = {}
+  /\ \/ P.kind[n] = "doctype"
+     \/ /\ KidsOfKind(P, S, r, P.kind[n]) # {}
+        /\ KidsOfKind(P, S, r, P.kind[n]) \ {n, leaving} = {}
 
-Outcome(P, S, c) ==
-  CASE c.op = "insert_before" ->
-         LET e == InsertErrs(P, S, c.r, c.n, c.ref, None)
+OutcomeX(P, S, par, own_, c) ==
+  CASE c.op = "append_child" ->
+         LET e == InsertErrs(P, S, par, c.r, c.n, None, None)
+             amb == DocSingletonAmbiguous(P, S, c.r, c.n, None)
+         IN [errs |-> e \cup (IF amb THEN {HIER} ELSE {}), ok |-> e = {}, any |-> FALSE]
+    [] c.op = "insert_before" ->
+         LET e == InsertErrs(P, S, par, c.r, c.n, c.ref, None)
              amb == DocSingletonAmbiguous(P, S, c.r, c.n, None)
          IN [errs |-> e \cup (IF amb THEN {HIER} ELSE {}), ok |-> e = {}, any |-> c.n = c.ref]
     [] c.op = "replace_child" ->
-         LET e == InsertErrs(P, S, c.r, c.n, c.old, c.old)
+         LET e == InsertErrs(P, S, par, c.r, c.n, c.old, c.old)
                     \cup (IF c.old \notin Range(S.kids[c.r]) THEN {NOTFOUND} ELSE {})
                     \cup (IF ~IsContainer(P, c.r) THEN {HIER} ELSE {})
              amb == DocSingletonAmbiguous(P, S, c.r, c.n, c.old)
@@ -138,8 +164,8 @@ Outcome(P, S, c) ==
                   \cup (IF DocOf(P, c.old) # DocOf(P, c.r) THEN {WRONGDOC} ELSE {})
                   \cup (IF ~IsContainer(P, c.r) THEN {HIER} ELSE {})
          IN [errs |-> e, ok |-> e = {}, any |-> FALSE]
-    [] c.op = "set_attribute_node" ->
-         LET own == OwnerElem(P, S, c.a)
+    [] c.op \in {"set_attribute_node", "set_named_item"} ->
+         LET own == own_[c.a]
              e == (IF DocOf(P, c.a) # DocOf(P, c.r) THEN {WRONGDOC} ELSE {})
                   \cup (IF own # None /\ own # c.r THEN {INUSE} ELSE {})
          IN [errs |-> e \cup (IF own = c.r THEN {INUSE} ELSE {}), ok |-> e = {}, any |-> FALSE]
@@ -155,6 +181,8 @@ Outcome(P, S, c) ==
          IN [errs |-> IF same = {} THEN {NOTFOUND} ELSE {}, ok |-> same # {}, any |-> FALSE]
     [] c.op = "remove_attribute" ->
          [errs |-> {}, ok |-> TRUE, any |-> FALSE]
+
+Outcome(P, S, c) == OutcomeX(P, S, ParentFn(P, S), OwnerFn(P, S), c)
 
 \* ---------------------------------------------------------------------------------------------
 \* effects of successful calls
@@ -173,12 +201,13 @@ RemoveNamed(P, S, r, name) ==
   [S EXCEPT !.attrs[r] = SelectSeq(S.attrs[r], LAMBDA b : P.aname[b] # name)]
 
 Apply(P, S, c) ==
-  CASE c.op = "insert_before" -> InsertEffect(P, S, c.r, c.n, c.ref)
+  CASE c.op = "append_child" -> InsertEffect(P, S, c.r, c.n, None)
+    [] c.op = "insert_before" -> InsertEffect(P, S, c.r, c.n, c.ref)
     [] c.op = "replace_child" ->
          IF c.n = c.old THEN S
          ELSE LET S1 == InsertEffect(P, S, c.r, c.n, c.old) IN Detach(P, S1, c.old)
     [] c.op = "remove_child" -> Detach(P, S, c.old)
-    [] c.op = "set_attribute_node" ->
+    [] c.op \in {"set_attribute_node", "set_named_item"} ->
          IF c.a \in Range(S.attrs[c.r]) THEN S
          ELSE LET S1 == RemoveNamed(P, S, c.r, P.aname[c.a])
               IN  [S1 EXCEPT !.attrs[c.r] = Append(S1.attrs[c.r], c.a)]
@@ -188,10 +217,10 @@ Apply(P, S, c) ==
 
 \* the node a successful call returns (None: nothing / unit)
 Returned(P, S, c) ==
-  CASE c.op = "insert_before" -> c.n
+  CASE c.op \in {"insert_before", "append_child"} -> c.n
     [] c.op = "replace_child" -> c.old
     [] c.op = "remove_child" -> c.old
-    [] c.op = "set_attribute_node" ->
+    [] c.op \in {"set_attribute_node", "set_named_item"} ->
          LET same == { b \in Range(S.attrs[c.r]) : P.aname[b] = P.aname[c.a] /\ b # c.a }
          IN IF same = {} THEN None ELSE CHOOSE b \in same : TRUE
     [] c.op = "remove_attribute_node" ->
@@ -214,12 +243,14 @@ Receivers(P) == { n \in Nodes(P) : P.kind[n] \notin {"doctype", "eref"} /\ DocOf
 ANames(P) == { P.aname[a] : a \in AttrNodes(P) }
 
 Calls(P) ==
-       { [op |-> "insert_before", r |-> r, n |-> n, ref |-> ref] :
+       { [op |-> "append_child", r |-> r, n |-> n] : r \in Receivers(P), n \in Movable(P) }
+  \cup { [op |-> "insert_before", r |-> r, n |-> n, ref |-> ref] :
             r \in Receivers(P), n \in Movable(P), ref \in Movable(P) \cup {None} }
   \cup { [op |-> "replace_child", r |-> r, n |-> n, old |-> old] :
             r \in Receivers(P), n \in Movable(P), old \in Movable(P) }
   \cup { [op |-> "remove_child", r |-> r, old |-> old] : r \in Receivers(P), old \in Movable(P) }
   \cup { [op |-> "set_attribute_node", r |-> r, a |-> a] : r \in ElemNodes(P), a \in AttrNodes(P) }
+  \cup { [op |-> "set_named_item", r |-> r, a |-> a] : r \in ElemNodes(P), a \in AttrNodes(P) }
   \cup { [op |-> "remove_attribute_node", r |-> r, a |-> a] : r \in ElemNodes(P), a \in AttrNodes(P) }
   \cup { [op |-> "remove_named_item", r |-> r, name |-> nm] : r \in ElemNodes(P), nm \in ANames(P) }
   \cup { [op |-> "remove_attribute", r |-> r, name |-> nm] : r \in ElemNodes(P), nm \in ANames(P) }
